@@ -128,8 +128,10 @@ Proof.
     { unfold step in Hs. destruct (lock s); [|congruence].
       destruct (nth_error (pend_subs s) j) eqn:E; [|congruence]. eapply nth_error_lt. exact E. }
     do 4 right. left. apply in_map. apply in_seq0. exact L.
-  - do 5 right. cbn. auto.
-  - do 5 right. cbn. auto.
+  - do 5 right. cbn. auto 10.
+  - do 5 right. cbn. auto 10.
+  - do 5 right. cbn. auto 10.
+  - do 5 right. cbn. auto 10.
 Qed.
 
 Lemma candidates_internal s e : In e (candidates s) -> internal e = true.
@@ -141,7 +143,7 @@ Proof.
   - destruct H as (i & <- & _). reflexivity.
   - destruct H as (i & <- & _). reflexivity.
   - destruct H as (i & <- & _). reflexivity.
-  - destruct H as [<-|[<-|[]]]; reflexivity.
+  - destruct H as [<-|[<-|[<-|[<-|[]]]]]; reflexivity.
 Qed.
 
 Lemma stuck_iff_candidates : forall vr s,
@@ -161,9 +163,9 @@ Qed.
 (* Internal activity terminates                                                            *)
 
 Ltac simp_st :=
-  cbn [subs lock closed cl bq pend_subs fanout issued bret sret
-       set_subs set_lock set_closed set_cl set_bq set_pend_subs set_fanout set_issued
-       set_bret set_sret] in *.
+  cbn [subs lock closed cl cl2 bq pend_subs pend_dead fanout issued bret sret
+       set_subs set_lock set_closed set_cl set_cl2 set_bq set_pend_subs set_pend_dead
+       set_fanout set_issued set_bret set_sret] in *.
 Ltac simp_sb :=
   cbn [prompt wants buf fwd ctx_done exit_closed registered received start
        sb_prompt sb_wants sb_buf sb_fwd sb_ctx_done sb_exit_closed sb_registered sb_received
@@ -178,6 +180,7 @@ Proof.
   all: repeat match goal with
        | E : lock _ = _ |- _ => rewrite E
        | E : cl _ = _ |- _ => rewrite E
+       | E : cl2 _ = _ |- _ => rewrite E
        end.
   all: try match goal with
        | E : nth_error (bq ?s) ?j = Some _ |- _ =>
@@ -216,36 +219,37 @@ Definition gone (f : fwdst) : bool :=
 Definition sub_ok (b : sub) : Prop :=
   (gone (fwd b) = true -> exit_closed b = true) /\ (length (buf b) <= bufcap)%nat.
 
-(* (J3) closeCh is closed once Close is past the lock; on Fixed as soon as Close is called *)
+(* (J3) closeCh is closed once a Close is past the lock; on Fixed as soon as Close is called *)
 Definition inv (vr : variant) (s : st) : Prop :=
   Forall sub_ok (subs s) /\
-  (cl s = CWaitFwd \/ cl s = CReturned -> closed s = true) /\
-  (vr = Fixed -> cl s <> CNone -> closed s = true).
+  (cl s = CWaitFwd \/ cl s = CReturned \/ cl2 s = CWaitFwd \/ cl2 s = CReturned -> closed s = true) /\
+  (vr = Fixed -> cl s <> CNone \/ cl2 s <> CNone -> closed s = true).
 
 Lemma inv_init vr : inv vr init.
 Proof.
   split; [constructor|]. split; cbn.
-  - intros [H|H]; discriminate H.
-  - intros _ H. congruence.
+  - intros [H|[H|[H|H]]]; discriminate H.
+  - intros _ [H|H]; congruence.
 Qed.
 
 Lemma inv_step vr s e s' : inv vr s -> step vr s e = Some s' -> inv vr s'.
 Proof.
   intros (IF & I3 & I4) H.
-  destruct e; step_inv H; unfold inv; simp_st; (split; [|split]); try assumption.
+  destruct e; step_inv H; unfold inv; simp_st;
+    (split; [|split;
+       [ try assumption; clear I4; destruct vr; cbn [is_fixed orb]; intuition (try congruence)
+       | try assumption; intros ->; specialize (I4 eq_refl); clear I3; cbn [is_fixed orb];
+         intuition (try congruence) ]]);
+    try assumption.
   all: try match goal with
        | E : nth_error (subs _) _ = Some ?b |- Forall _ (upd_nth _ _ _) =>
            apply Forall_upd_nth; [assumption|];
            destruct (Forall_nth_error _ _ _ _ IF E) as [Ob1 Ob2];
            split; simp_sb; try assumption
        end.
-  all: try solve [intros [X|X]; first [discriminate X | reflexivity | auto]].
-  all: try solve [intros -> ; reflexivity].
-  all: try solve [intros X Y; first [reflexivity | rewrite <- (I4 X Y); congruence | auto]].
   all: try solve [intro X; first [reflexivity | discriminate X]].
   all: try solve [apply Forall_app; split; [assumption|]; constructor; [|constructor];
                   split; cbn; [first [discriminate | reflexivity] | apply Nat.le_0_l]].
-  all: try solve [intro X; exfalso; apply I3 in X; discriminate X].
   - apply andb_true_iff in Heqb as [_ Hr]. unfold has_room in Hr. apply Nat.ltb_lt in Hr.
     rewrite app_length. cbn [length]. lia.
   - match goal with E : buf _ = _ :: _ |- _ => rewrite E in Ob2 end. cbn [length] in Ob2. lia.
@@ -312,12 +316,28 @@ Proof.
   - rewrite O1 in Hex by reflexivity. discriminate Hex.
 Qed.
 
+(* closeCh closed and the lock free: a forwarder that has not exited can move *)
+Lemma fwd_progress vr s :
+  lock s = Free -> closed s = true ->
+  forallb (fun b => is_exited (fwd b)) (subs s) = false -> can_move vr s.
+Proof.
+  intros Hl Hcl Ea. unfold can_move.
+  apply forallb_false_nth in Ea as (i & b & En & Eb).
+  destruct (fwd b) as [|h| |] eqn:Ef; cbn in Eb; try discriminate Eb.
+  - exists (FwdSeeDone i). split; [reflexivity|].
+    unfold step, with_sub, departing. rewrite En, Ef, Hcl, orb_true_r. discriminate.
+  - exists (FwdSeeDone i). split; [reflexivity|].
+    unfold step, with_sub, departing. rewrite En, Ef, Hcl, orb_true_r. discriminate.
+  - exists (FwdExitLocked i). split; [reflexivity|].
+    unfold step, with_sub. rewrite Hl, En, Ef. discriminate.
+Qed.
+
 (* the lock is free: any pending call can move *)
 Lemma free_progress vr s :
   inv vr s -> lock s = Free -> call_pending s -> can_move vr s.
 Proof.
-  intros (IF & I3 & I4) Hl Hp. unfold can_move.
-  destruct Hp as [(v & idx & Hh)|[Hb|[Hs|[Hc|Hc]]]].
+  intros (IF & I3 & I4) Hl Hp.
+  destruct Hp as [(v & idx & Hh)|[Hb|[Hs|[Hc|[Hc|[Hc|Hc]]]]]].
   - congruence.
   - destruct (bq s) as [|v r] eqn:Eb; [congruence|].
     exists (BcLock 0). split; [reflexivity|]. unfold step. rewrite Hl, Eb. cbn [nth_error].
@@ -328,15 +348,11 @@ Proof.
   - exists CloseLock. split; [reflexivity|]. unfold step. rewrite Hc, Hl. discriminate.
   - destruct (forallb (fun b => is_exited (fwd b)) (subs s)) eqn:Ea.
     + exists CloseWait. split; [reflexivity|]. unfold step. rewrite Hc, Ea. discriminate.
-    + apply forallb_false_nth in Ea as (i & b & En & Eb).
-      assert (Hcl : closed s = true) by (apply I3; left; exact Hc).
-      destruct (fwd b) as [|h| |] eqn:Ef; cbn in Eb; try discriminate Eb.
-      * exists (FwdSeeDone i). split; [reflexivity|].
-        unfold step, with_sub, departing. rewrite En, Ef, Hcl, orb_true_r. discriminate.
-      * exists (FwdSeeDone i). split; [reflexivity|].
-        unfold step, with_sub, departing. rewrite En, Ef, Hcl, orb_true_r. discriminate.
-      * exists (FwdExitLocked i). split; [reflexivity|].
-        unfold step, with_sub. rewrite Hl, En, Ef. discriminate.
+    + apply fwd_progress; [exact Hl | apply I3; auto | exact Ea].
+  - exists Close2Lock. split; [reflexivity|]. unfold step. rewrite Hc, Hl. discriminate.
+  - destruct (forallb (fun b => is_exited (fwd b)) (subs s)) eqn:Ea.
+    + exists Close2Wait. split; [reflexivity|]. unfold step. rewrite Hc, Ea. discriminate.
+    + apply fwd_progress; [exact Hl | apply I3; auto | exact Ea].
 Qed.
 
 Lemma stuck_cannot_move vr s : stuck vr s -> can_move vr s -> False.
@@ -365,7 +381,7 @@ Qed.
 
 (* CLOSE NO-WEDGE on the Fixed variant *)
 Lemma close_no_wedge_inv s :
-  inv Fixed s -> cl s <> CNone -> call_pending s -> can_move Fixed s.
+  inv Fixed s -> cl s <> CNone \/ cl2 s <> CNone -> call_pending s -> can_move Fixed s.
 Proof.
   intros I Hc Hp. destruct (lock s) as [|v idx] eqn:Hl.
   - apply free_progress; assumption.
@@ -374,7 +390,7 @@ Proof.
 Qed.
 
 Theorem main_close_no_wedge : forall es s, run Fixed init es = Some s ->
-  cl s <> CNone -> call_pending s ->
+  cl s <> CNone \/ cl2 s <> CNone -> call_pending s ->
   exists e, internal e = true /\ step Fixed s e <> None.
 Proof.
   intros es s Hr Hc Hp. apply close_no_wedge_inv; [eapply inv_reachable; exact Hr | exact Hc | exact Hp].
@@ -396,57 +412,70 @@ Proof.
   intros e He. rewrite (find_none _ _ H e He). reflexivity.
 Qed.
 
+(* internal events never reset a Close slot to CNone, and never start one *)
 Lemma cl_called_preserved vr s e s' :
-  internal e = true -> step vr s e = Some s' -> cl s <> CNone -> cl s' <> CNone.
+  internal e = true -> step vr s e = Some s' ->
+  (cl s <> CNone -> cl s' <> CNone) /\ (cl2 s <> CNone -> cl2 s' <> CNone).
 Proof.
-  intros Hi H Hc. destruct e; try discriminate Hi; step_inv H; simp_st;
-    first [exact Hc | discriminate].
+  intros Hi H. destruct e; try discriminate Hi; step_inv H; simp_st;
+    split; intro; congruence.
+Qed.
+
+Lemma returned_of_not_pending s :
+  ~ call_pending s ->
+  (cl s <> CNone -> cl s = CReturned) /\ (cl2 s <> CNone -> cl2 s = CReturned).
+Proof.
+  intro Hnp. unfold call_pending in Hnp. split; intro Hc.
+  - destruct (cl s); [congruence | exfalso; apply Hnp; auto 10 | exfalso; apply Hnp; auto 10 | reflexivity].
+  - destruct (cl2 s); [congruence | exfalso; apply Hnp; auto 10 | exfalso; apply Hnp; auto 10 | reflexivity].
 Qed.
 
 Lemma close_quiesce n : forall s,
-  inv Fixed s -> cl s <> CNone -> (measure s <= n)%nat ->
-  ~ call_pending (quiesce_fuel n Fixed s) /\ cl (quiesce_fuel n Fixed s) <> CNone.
+  inv Fixed s -> cl s <> CNone \/ cl2 s <> CNone -> (measure s <= n)%nat ->
+  ~ call_pending (quiesce_fuel n Fixed s) /\
+  (cl s <> CNone -> cl (quiesce_fuel n Fixed s) <> CNone) /\
+  (cl2 s <> CNone -> cl2 (quiesce_fuel n Fixed s) <> CNone).
 Proof.
   induction n as [|n IH]; intros s I Hc Hm.
-  - cbn [quiesce_fuel]. split; [|exact Hc]. intro Hp.
+  - cbn [quiesce_fuel]. split; [|split; auto]. intro Hp.
     destruct (close_no_wedge_inv s I Hc Hp) as (e & Hi & He).
     destruct (step Fixed s e) as [s1|] eqn:E; [|congruence].
     pose proof (main_internal_decreases _ _ _ _ Hi E). lia.
   - cbn [quiesce_fuel]. destruct (first_enabled Fixed s) as [e|] eqn:Ef.
     + destruct (first_enabled_some _ _ _ Ef) as (Hi & s1 & Es). rewrite Es.
-      pose proof (main_internal_decreases _ _ _ _ Hi Es).
-      apply IH; [eapply inv_step; eassumption | eapply cl_called_preserved; eassumption | lia].
-    + split; [|exact Hc]. intro Hp.
+      pose proof (main_internal_decreases _ _ _ _ Hi Es) as Hd.
+      destruct (cl_called_preserved _ _ _ _ Hi Es) as [P1 P2].
+      assert (Hc1 : cl s1 <> CNone \/ cl2 s1 <> CNone) by (destruct Hc; auto).
+      destruct (IH s1 (inv_step _ _ _ _ I Es) Hc1 ltac:(lia)) as (Q0 & Q1 & Q2).
+      split; [exact Q0|]. split; auto.
+    + split; [|split; auto]. intro Hp.
       eapply stuck_cannot_move; [apply first_enabled_none; exact Ef|].
       apply close_no_wedge_inv; assumption.
 Qed.
 
-Theorem main_close_completes : forall es s, run Fixed init es = Some s -> cl s <> CNone ->
-  exists k s', (k <= measure s)%nat /\ s' = quiesce_fuel k Fixed s /\ ~ call_pending s' /\ cl s' = CReturned.
+Theorem main_close_completes : forall es s, run Fixed init es = Some s ->
+  cl s <> CNone \/ cl2 s <> CNone ->
+  exists k s', (k <= measure s)%nat /\ s' = quiesce_fuel k Fixed s /\ ~ call_pending s' /\
+               (cl s <> CNone -> cl s' = CReturned) /\ (cl2 s <> CNone -> cl2 s' = CReturned).
 Proof.
   intros es s Hr Hc. exists (measure s), (quiesce_fuel (measure s) Fixed s).
   split; [apply Nat.le_refl|]. split; [reflexivity|].
-  destruct (close_quiesce (measure s) s (inv_reachable _ _ _ Hr) Hc (Nat.le_refl _)) as [Hnp Hc'].
-  split; [exact Hnp|].
-  destruct (cl (quiesce_fuel (measure s) Fixed s)) eqn:E.
-  - congruence.
-  - exfalso. apply Hnp. right. right. right. left. exact E.
-  - exfalso. apply Hnp. right. right. right. right. exact E.
-  - reflexivity.
+  destruct (close_quiesce (measure s) s (inv_reachable _ _ _ Hr) Hc (Nat.le_refl _)) as (Hnp & Q1 & Q2).
+  destruct (returned_of_not_pending _ Hnp) as [R1 R2].
+  split; [exact Hnp|]. split; auto.
 Qed.
 
 (* the same, phrased with [quiesce] *)
-Corollary close_completes_quiesce : forall es s, run Fixed init es = Some s -> cl s <> CNone ->
-  ~ call_pending (quiesce Fixed s) /\ cl (quiesce Fixed s) = CReturned.
+Corollary close_completes_quiesce : forall es s, run Fixed init es = Some s ->
+  cl s <> CNone \/ cl2 s <> CNone ->
+  ~ call_pending (quiesce Fixed s) /\
+  (cl s <> CNone -> cl (quiesce Fixed s) = CReturned) /\
+  (cl2 s <> CNone -> cl2 (quiesce Fixed s) = CReturned).
 Proof.
   intros es s Hr Hc. unfold quiesce.
-  destruct (close_quiesce (measure s) s (inv_reachable _ _ _ Hr) Hc (Nat.le_refl _)) as [Hnp Hc'].
-  split; [exact Hnp|].
-  destruct (cl (quiesce_fuel (measure s) Fixed s)) eqn:E.
-  - congruence.
-  - exfalso. apply Hnp. right. right. right. left. exact E.
-  - exfalso. apply Hnp. right. right. right. right. exact E.
-  - reflexivity.
+  destruct (close_quiesce (measure s) s (inv_reachable _ _ _ Hr) Hc (Nat.le_refl _)) as (Hnp & Q1 & Q2).
+  destruct (returned_of_not_pending _ Hnp) as [R1 R2].
+  split; [exact Hnp|]. split; auto.
 Qed.
 
 (* ===================================================================================== *)
@@ -455,21 +484,29 @@ Qed.
 Definition wedged_sub : sub :=
   mkSub false 0 [2; 3; 4; 5; 6; 7; 8; 9; 10; 11]%Z (Holding 1%Z) false false true [] 0.
 
-(* what stays true of the wedged state as long as nobody reads or cancels *)
+(* what stays true of the wedged state as long as nobody reads or cancels; a second Close may
+   be called, it queues for the lock as well *)
 Definition wedged (s : st) : Prop :=
-  subs s = [wedged_sub] /\ lock s = Held 12%Z 0 /\ closed s = false /\ cl s = CWantLock.
+  subs s = [wedged_sub] /\ lock s = Held 12%Z 0 /\ closed s = false /\ cl s = CWantLock /\
+  (cl2 s = CNone \/ cl2 s = CWantLock).
 
 Definition quiet (e : ev) : Prop :=
-  match e with BcCall _ | SubCall _ _ => True | _ => internal e = true end.
+  match e with BcCall _ | SubCall _ _ | Close2Call | CancelPending _ => True
+  | _ => internal e = true end.
 
 Lemma wedged_step s e s' : wedged s -> quiet e -> step Original s e = Some s' -> wedged s'.
 Proof.
-  intros (Hs & Hl & Hcl & Hc) Ha H. unfold wedged.
+  intros (Hs & Hl & Hcl & Hc & Hc2) Ha H. unfold wedged.
   destruct e; cbn in Ha; try discriminate Ha.
   - (* BcCall *)
     unfold step in H. destruct (memz v (issued s)); [discriminate H|]. injection H as <-.
     simp_st. auto.
   - (* SubCall *)
+    unfold step in H. injection H as <-. simp_st. auto.
+  - (* Close2Call *)
+    unfold step in H. destruct (cl2 s); try discriminate H. injection H as <-.
+    simp_st. cbn [is_fixed orb]. auto 10.
+  - (* CancelPending *)
     unfold step in H. injection H as <-. simp_st. auto.
   - unfold step in H. rewrite Hl in H. discriminate H.
   - unfold step in H. rewrite Hl, Hs in H. cbn in H. discriminate H.
@@ -483,6 +520,8 @@ Proof.
   - unfold step in H. rewrite Hl in H. discriminate H.
   - unfold step in H. rewrite Hc, Hl in H. discriminate H.
   - unfold step in H. rewrite Hc in H. discriminate H.
+  - unfold step in H. rewrite Hl in H. destruct (cl2 s); discriminate H.
+  - unfold step in H. destruct Hc2 as [E|E]; rewrite E in H; discriminate H.
 Qed.
 
 Lemma wedged_run es : forall s s', wedged s -> Forall quiet es -> run Original s es = Some s' -> wedged s'.
@@ -496,18 +535,36 @@ Qed.
 
 Theorem main_close_wedge_refuted : exists s, run Original init wedge_schedule = Some s /\
   cl s = CWantLock /\ (exists v idx, lock s = Held v idx) /\ closed s = false /\ stuck Original s /\
-  (* and it stays wedged whatever calls are issued later (Broadcast, Subscribe), as long as nobody reads or cancels *)
-  (forall es' s', Forall (fun e => match e with BcCall _ | SubCall _ _ => True | _ => internal e = true end) es' ->
-                  run Original s es' = Some s' -> cl s' = CWantLock /\ (exists v idx, lock s' = Held v idx)).
+  (* and it stays wedged whatever calls are issued later (Broadcast, Subscribe, a second Close), as long as
+     nobody reads or cancels *)
+  (forall es' s', Forall (fun e => match e with BcCall _ | SubCall _ _ | Close2Call | CancelPending _ => True
+                                   | _ => internal e = true end) es' ->
+                  run Original s es' = Some s' ->
+                  cl s' = CWantLock /\ cl2 s' <> CReturned /\ (exists v idx, lock s' = Held v idx)).
 Proof.
   eexists. split; [vm_compute; reflexivity|].
   split; [reflexivity|]. split; [do 2 eexists; reflexivity|]. split; [reflexivity|].
   split; [apply stuck_iff_candidates; vm_compute; reflexivity|].
   intros es' s' Hq Hr.
   assert (W : wedged s').
-  { eapply wedged_run; [|exact Hq|exact Hr]. repeat split. }
-  destruct W as (_ & Hl & _ & Hc). split; [exact Hc|]. do 2 eexists. exact Hl.
+  { eapply wedged_run; [|exact Hq|exact Hr]. unfold wedged. cbn. auto 10. }
+  destruct W as (_ & Hl & _ & Hc & Hc2). split; [exact Hc|]. split.
+  - destruct Hc2 as [E|E]; rewrite E; discriminate.
+  - do 2 eexists. exact Hl.
 Qed.
+
+(* two overlapping Close calls on Original: both wait for the lock for ever *)
+Theorem main_close2_wedge_refuted : exists s, run Original init wedge2_schedule = Some s /\
+  cl s = CWantLock /\ cl2 s = CWantLock /\ (exists v idx, lock s = Held v idx) /\ stuck Original s.
+Proof.
+  eexists. split; [vm_compute; reflexivity|].
+  split; [reflexivity|]. split; [reflexivity|]. split; [do 2 eexists; reflexivity|].
+  apply stuck_iff_candidates. vm_compute. reflexivity.
+Qed.
+
+Example fixed_close2_completes : exists s, run Fixed init wedge2_schedule = Some s /\
+  cl (quiesce Fixed s) = CReturned /\ cl2 (quiesce Fixed s) = CReturned /\ lock (quiesce Fixed s) = Free.
+Proof. eexists. split; [vm_compute; reflexivity|]. repeat split; vm_compute; reflexivity. Qed.
 
 (* by the letter the wedged state is back-pressure: the stalled subscriber is alive *)
 Example wedge_is_backpressure : exists s, run Original init wedge_schedule = Some s /\ backpressure s.
@@ -558,8 +615,16 @@ Qed.
 
 (* main_close_no_wedge / main_close_completes: Close called, calls pending *)
 Example close_no_wedge_nonvacuous :
-  exists s, run Fixed init wedge_schedule = Some s /\ cl s <> CNone /\ call_pending s.
+  exists s, run Fixed init wedge_schedule = Some s /\ (cl s <> CNone \/ cl2 s <> CNone) /\ call_pending s.
 Proof.
-  eexists. split; [vm_compute; reflexivity|]. split; [discriminate|].
+  eexists. split; [vm_compute; reflexivity|]. split; [left; discriminate|].
+  left. do 2 eexists. reflexivity.
+Qed.
+
+(* ... and with both Close slots in use *)
+Example close2_no_wedge_nonvacuous :
+  exists s, run Fixed init wedge2_schedule = Some s /\ cl s <> CNone /\ cl2 s <> CNone /\ call_pending s.
+Proof.
+  eexists. split; [vm_compute; reflexivity|]. split; [discriminate|]. split; [discriminate|].
   left. do 2 eexists. reflexivity.
 Qed.
